@@ -84,8 +84,8 @@ class Impl(object):
         return [self.ids[h] for h in self.meta.token_map.get_replicas(ks, self.token_obj(t))]
 
     def replicas_for_key(self, ks, key):
-        tok = self.meta.token_map.token_class.from_key(key).value
-        return tok, [self.ids[h] for h in self.meta.get_replicas(ks, key)]
+        """Metadata.get_replicas(keyspace, key): the public entry point (key -> token by the driver)"""
+        return [self.ids[h] for h in self.meta.get_replicas(ks, key)]
 
     def parsed_rf(self, strategy_obj, strat):
         if strat[0] == 'simple':
@@ -151,6 +151,159 @@ def play_history(layout, ring, history, queries, ks='ks'):
         elif k != 'query':
             raise ValueError(op)
         yield i, op, cur_ring, cur, [(t, impl.replicas(ks, t)) for t in queries]
+
+
+# ------------------------------------------------------------------ key -> token, independently of the driver
+_M = (1 << 64) - 1
+
+
+def partitioner_hash(key):
+    """org.apache.cassandra.utils.MurmurHash.hash3_x64_128(key, 0, len, 0)[0] as a signed long (transcribed from memory)"""
+    def rotl(x, r):
+        return ((x << r) | (x >> (64 - r))) & _M
+
+    def fmix(k):
+        k ^= k >> 33
+        k = (k * 0xff51afd7ed558ccd) & _M
+        k ^= k >> 33
+        k = (k * 0xc4ceb9fe1a85ec53) & _M
+        k ^= k >> 33
+        return k
+
+    def sx(b):                      # (long) of a Java byte: sign-extended
+        return (b - 256 if b >= 128 else b) & _M
+    c1, c2 = 0x87c37b91114253d5, 0x4cf5ad432745937f
+    n, h1, h2 = len(key), 0, 0
+    for i in range(n // 16):
+        k1 = int.from_bytes(key[16 * i:16 * i + 8], 'little')
+        k2 = int.from_bytes(key[16 * i + 8:16 * i + 16], 'little')
+        k1 = rotl((k1 * c1) & _M, 31) * c2 & _M
+        h1 = ((rotl(h1 ^ k1, 27) + h2) & _M) * 5 + 0x52dce729 & _M
+        k2 = rotl((k2 * c2) & _M, 33) * c1 & _M
+        h2 = ((rotl(h2 ^ k2, 31) + h1) & _M) * 5 + 0x38495ab5 & _M
+    t = key[16 * (n // 16):]
+    k1 = k2 = 0
+    for i in range(8, len(t)):
+        k2 ^= (sx(t[i]) << (8 * (i - 8))) & _M
+    if len(t) > 8:
+        h2 ^= rotl((k2 * c2) & _M, 33) * c1 & _M
+    for i in range(min(len(t), 8)):
+        k1 ^= (sx(t[i]) << (8 * i)) & _M
+    if len(t) > 0:
+        h1 ^= rotl((k1 * c1) & _M, 31) * c2 & _M
+    h1 ^= n
+    h2 ^= n
+    h1 = (h1 + h2) & _M
+    h2 = (h2 + h1) & _M
+    h1, h2 = fmix(h1), fmix(h2)
+    h1 = (h1 + h2) & _M
+    return h1 - (1 << 64) if h1 >= (1 << 63) else h1
+
+
+def partitioner_token(key):
+    """Murmur3Partitioner.getToken: normalize(hash): Long.MIN_VALUE -> Long.MAX_VALUE"""
+    h = partitioner_hash(key)
+    return (1 << 63) - 1 if h == -(1 << 63) else h
+
+
+# 16-byte keys with chosen raw hashes (one murmur3 block is invertible): Long.MIN_VALUE (x2), MIN_VALUE+1, MAX_VALUE
+BOUNDARY_KEYS = [bytes.fromhex(x) for x in ('ee961629b0b5ad1d319e18e83892dbed', 'dfe76f52023fad4c82b861c2c65c7a6b',
+                                            '0d68d15960efee13f50aaac4a49090e1', '1aaebd2d9c3a9d7e66513b2c91fcf940')]
+
+
+# ------------------------------------------------------------------ concurrency: lock audit and a forced interleaving
+def audit_rebuild_lock(src):
+    """TokenMap.rebuild_keyspace must do ALL its work on tokens_to_hosts_by_ks / _metadata.keyspaces inside `with self._rebuild_lock`
+    (the atomic regions of Model/RingCache.v).  Returns a list of problems."""
+    import ast
+    probs = []
+    cls = [n for n in ast.parse(src).body if isinstance(n, ast.ClassDef) and n.name == 'TokenMap']
+    if not cls:
+        return ['class TokenMap not found']
+    fn = [n for n in cls[0].body if isinstance(n, ast.FunctionDef) and n.name == 'rebuild_keyspace']
+    if not fn:
+        return ['TokenMap.rebuild_keyspace not found']
+    body = [st for st in fn[0].body if not (isinstance(st, ast.Expr) and isinstance(st.value, ast.Constant))]
+
+    def is_lock(w):
+        return any(isinstance(i.context_expr, ast.Attribute) and i.context_expr.attr == '_rebuild_lock' for i in w.items)
+    for st in body:
+        if isinstance(st, ast.With) and is_lock(st):
+            continue
+        for n in ast.walk(st):
+            if isinstance(n, ast.Attribute) and n.attr in ('tokens_to_hosts_by_ks', 'keyspaces', '_metadata'):
+                probs.append('rebuild_keyspace touches self.%s outside `with self._rebuild_lock` (line %d)' % (n.attr, n.lineno))
+            if isinstance(n, ast.Return):
+                probs.append('rebuild_keyspace returns before taking _rebuild_lock (line %d)' % n.lineno)
+    if not any(isinstance(st, ast.With) and is_lock(st) for st in body):
+        probs.append('rebuild_keyspace does not take self._rebuild_lock')
+    init = [n for n in cls[0].body if isinstance(n, ast.FunctionDef) and n.name == '__init__']
+    if not init or '_rebuild_lock' not in ast.dump(init[0]):
+        probs.append('TokenMap.__init__ does not create _rebuild_lock')
+    return sorted(set(probs))
+
+
+class _SpyLock(object):
+    """wraps TokenMap._rebuild_lock: tells when another thread is about to block on it"""
+    def __init__(self, real, contended):
+        self.real, self.contended = real, contended
+
+    def __enter__(self):
+        if not self.real.acquire(False):
+            self.contended.set()
+            self.real.acquire()
+        return self
+
+    def __exit__(self, *a):
+        self.real.release()
+
+
+def race_alter_during_first_build(layout, ring, old, new, queries, ks='ks'):
+    """Witness of C26_cache_unlocked_refuted on the real code: thread Q (first lookup) is parked inside make_token_replica_map,
+    i.e. after it read the OLD settings and before it publishes; thread E delivers the ALTER through Metadata._update_keyspace.
+    Q resumes when E has finished or is blocked on _rebuild_lock.  Returns the replicas served afterwards."""
+    import threading
+    impl = Impl(layout, ring)
+    m = impl.meta
+    m._update_keyspace(keyspace_meta(ks, old))
+    tm = m.token_map
+    contended, built, edone = threading.Event(), threading.Event(), threading.Event()
+    tm._rebuild_lock = _SpyLock(tm._rebuild_lock, contended)
+    strat = m.keyspaces[ks].replication_strategy
+    orig = strat.make_token_replica_map
+    qthread = []
+
+    def parked(token_to_host_owner, ring_):
+        res = orig(token_to_host_owner, ring_)
+        if threading.current_thread() in qthread and not built.is_set():
+            built.set()
+            for _ in range(200):                 # until E is done or waits for the lock we hold (20 s cap)
+                if edone.wait(0.1) or contended.is_set():
+                    break
+        return res
+    strat.make_token_replica_map = parked
+    errs = []
+
+    def q():
+        try:
+            impl.replicas(ks, queries[0])
+        except Exception as e:      # noqa
+            errs.append(repr(e))
+
+    def e():
+        built.wait(20.0)
+        try:
+            m._update_keyspace(keyspace_meta(ks, new))
+        except Exception as ex:     # noqa
+            errs.append(repr(ex))
+        edone.set()
+    tq, te = threading.Thread(target=q), threading.Thread(target=e)
+    qthread.append(tq)
+    tq.start(); te.start()
+    tq.join(60.0); te.join(60.0)
+    if tq.is_alive() or te.is_alive():
+        errs.append('threads hung')
+    return [(t, impl.replicas(ks, t)) for t in queries], errs, contended.is_set()
 
 
 # ------------------------------------------------------------------ the oracle: Cassandra's placement
@@ -384,6 +537,11 @@ Definition chk_with (f : topo_t -> ring_t -> strategy * placement -> Z * list Z 
 Definition chk_model (dd : bool) : case_t -> bool := chk_with (fun loc ring sp o => obs_model dd loc ring (fst sp) o).
 Definition chk_spec : case_t -> bool := chk_with (fun loc ring sp o => obs_spec loc ring (snd sp) o).
 Definition chk_both (dd : bool) (c : case_t) : bool := chk_model dd c && chk_spec c.
+(* by key: h = the RAW partitioner hash of the key (computed outside the driver); model and spec each normalise it themselves *)
+Definition chk_key (c : topo_t * ring_t * (strategy * placement) * list (Z * list Z)) : bool :=
+  let '(loc, ring, sp, l) := c in
+  forallb (fun o => list_eqb (driver_replicas_for_hash loc (fst sp) ring (fst o)) (snd o) && nodupb (snd o) &&
+                    set_eqb (snd o) (natural_endpoints_for_hash loc (snd sp) ring (fst o))) l.
 '''
 
 
